@@ -2,6 +2,9 @@
 Synthetic wrapper chains whose hooks are table-driven and log every invocation.
 Pure stdlib + stackscope, Python 3.9 syntax.
 """
+import os
+import sys
+import types
 import warnings
 from contextlib import contextmanager
 
@@ -43,7 +46,6 @@ class Mg:
         return 0 if self.spec.get("falsy") else 1
 
 
-@elaborate_context.register(Mg)
 def _elab_mg(m, ctx):
     LOG.append(["elab", m.idx])
     sp = m.spec
@@ -71,7 +73,6 @@ def _result(kind, idx):
     raise AssertionError(kind)
 
 
-@unwrap_context.register(Mg)
 def _unwrap_mg(m, ctx):
     LOG.append(["unwrap", m.idx])
     return _result(m.spec["unwrap"], m.idx)
@@ -154,6 +155,20 @@ def _ucg_hook(frame, ctx):
     LOG.append(["ucg", idx, ok])
     return _result(W["links"][idx]["hook"], idx)
 
+
+def _register_mg_hooks():
+    elaborate_context.register(Mg)(_elab_mg)
+    unwrap_context.register(Mg)(_unwrap_mg)
+
+
+if os.environ.get("VERIF_C11_PENDING_GLUE"):
+    # the hooks for the synthetic managers come as the glue of a module that appeared after stackscope was imported
+    # and has not been seen by any extraction yet: whoever fills a context first has to install it
+    _m = types.ModuleType("vmod_c11_pending_glue")
+    _m._stackscope_install_glue_ = _register_mg_hooks
+    sys.modules[_m.__name__] = _m
+else:
+    _register_mg_hooks()
 
 unwrap_context_generator.register(gcm_a, _ucg_hook)
 unwrap_context_generator.register(gcm_c, _ucg_hook)
